@@ -1510,7 +1510,7 @@ impl<R: Read> DescribedAccess<R> {
             let u = eff_unread(old(self).de);
             let hdr = if old(self).de.elem_format_code is Some { 1int } else { 0int };
             &&& list_header_count(u) is Some && r->Ok_0 == list_header_count(u)->Some_0.0                       // [C05.composite.list-header-decoding] [C03.rt.decoder-premise] the field count of a described list (list0 / list8 / list32) is the COUNT field of its header, not the size field
-            &&& final(self).de.reader.unread() =~= old(self).de.reader.unread().skip(list_header_count(u)->Some_0.1 - hdr)   // [C20.composite.header-consumed-exactly] exactly the header is consumed: the first field starts right behind it, and whatever follows the composite (the next message section, a transfer's payload) is found where it is
+            &&& final(self).de.reader.unread() =~= old(self).de.reader.unread().skip(list_header_count(u)->Some_0.1 - hdr)   // [C20.composite.header-consumed-exactly] [C06.decode.performative-ends-where-the-payload-begins] exactly the header is consumed: the first field starts right behind it, and whatever follows the composite (the next message section, a transfer's payload) is found where it is
         }),
         old(self).de.reader.reliable() && list_header_count(eff_unread(old(self).de)) is Some ==> r is Ok,       // [C05.composite.every-list-width-accepted] every list width the peer may choose is accepted
 //@@ end
@@ -1533,7 +1533,7 @@ impl<R: Read> DescribedAccess<R> {
             let u = eff_unread(old(self).de);
             let hdr = if old(self).de.elem_format_code is Some { 1int } else { 0int };
             &&& map_header_count(u) is Some && r->Ok_0 == map_header_count(u)->Some_0.0                         // [C05.composite.map-header-decoding] [C03.rt.decoder-premise]
-            &&& final(self).de.reader.unread() =~= old(self).de.reader.unread().skip(map_header_count(u)->Some_0.1 - hdr)    // [C20.composite.header-consumed-exactly]
+            &&& final(self).de.reader.unread() =~= old(self).de.reader.unread().skip(map_header_count(u)->Some_0.1 - hdr)    // [C20.composite.header-consumed-exactly] [C06.decode.performative-ends-where-the-payload-begins]
         }),
         old(self).de.reader.reliable() && map_header_count(eff_unread(old(self).de)) is Some ==> r is Ok,        // [C05.composite.every-map-width-accepted]
 //@@ end
